@@ -488,6 +488,11 @@ var c12Hostile = []string{
 	"services:\n  a: {constructor: X, scope: shared, tags: [t]}\ndecorators:\n  - {tag: t, decorator: D, arguments: [\"@gone\", \"%gone%\"]}\n",
 	"services:\n  a: {constructor: X, scope: contextual, arguments: [\"@gone\"]}\n  b: {constructor: X, scope: shared, calls: [[M, [\"@a\", \"@gone2\"]]]}\n",
 	"services:\n  a: {constructor: X, scope: non_shared, arguments: [\"@a\", \"%p%\"]}\nparameters: {p: \"%q%\", q: \"%p%%gone%\"}\n",
+	// import paths that consist of a major-version element only; references through YAML anchors and aliases
+	"services:\n  s: {value: \"v1.Pod{}\"}\n", "services:\n  s: {constructor: v2.New, type: \"*v3.T\", getter: GetS}\n", "meta:\n  functions: {f: \"v2.Version\"}\nparameters: {p: \"%f()%\"}\n",
+	"services:\n  s: {constructor: X, arguments: [\"!value v1.X\", \"!value &v10/v2.Y{}\"]}\ndecorators:\n  - {tag: t, decorator: v0.D}\n",
+	"parameters: {n: &t plugin, m: &p 5}\nservices:\n  a: {constructor: X, tags: [{name: *t, priority: *p}], arguments: [\"!tagged plugin\"]}\n  b: {constructor: X, tags: [*t]}\n",
+	"x: &s {constructor: X, tags: [t]}\nservices:\n  a: *s\n  b: *s\n  c: {<<: *s, getter: GetC}\n",
 	// strings that are no valid UTF-8 (only !!binary can carry them) around token boundaries
 	"parameters:\n  p: !!binary /yUl\n", "parameters:\n  p: !!binary /yVhJQ==\n", "parameters:\n  p: !!binary //8lYSUl\n", "parameters:\n  a: 1\n  p: !!binary /yVhJXh4\n",
 	"parameters:\n  p: !!binary wyglYSU=\n", "parameters:\n  p: !!binary 7aCAJSU=\n", "parameters:\n  p: !!binary JWVudigi/yIpJQ==\n",
